@@ -244,9 +244,9 @@ CHECKS = {
  'C20': dict(
    text='PARTIAL. The compiled extensions cannot be built here (no Cython). Instead the four .pyx sources are translated to Lean definitions on every run '
         '(harness/gen_pyx.py): 27 scalar kernels (the acceptance rule with its function-pointer arguments as function parameters), 3 one-dimensional reductions '
-        '(folds) and 20 array kernels with nested loops rendered one-to-one as Lean do-blocks over Array (the station loops of every likelihood, incl. the four '
+        '(folds) and 22 array kernels with nested loops rendered one-to-one as Lean do-blocks over Array (the station loops of every likelihood, incl. the four '
         'combined kernels with early exit at -inf; the location-sample / tensor loops with in-kernel log-sum-exp marginalisation; ln_prod, ln_combine, '
-        'ln_multipliers; the relative-amplitude loops scale_estimator and relative_amplitude_ratio_ln_pdf; the scatter-binning kernel get_multipliers with break/continue). Loop theorems for EVERY '
+        'ln_multipliers; the relative-amplitude loops scale_estimator and relative_amplitude_ratio_ln_pdf; the batched conversions cMultipleTape_MT6 (scalar kernel called through &M[i*6]) and SDR_SDR; the scatter-binning kernel get_multipliers with break/continue). Loop theorems for EVERY '
         'scalar type (hence also the Float instance that is run): the three station kernels equal the hand-written loop-free specification (Model/PyxSpec: dot product with the C strides, '
         'accumulate-until--inf), the four combined station kernels equal the clean three-count specification for every ordering of the station counts, all seven c_*_ln_pdf wrappers fill cell '
         'v*wmax+w with it (un-marginalised) or with the in-kernel log-sum-exp over location samples (marginalised), the relative-amplitude loops are the fold of combine_mu/combine_s over the '
